@@ -300,6 +300,7 @@ frequent_items_sketch<T, W, H, E, A> frequent_items_sketch<T, W, H, E, A>::deser
   const auto lg_cur_size = read<uint8_t>(is);
   const auto flags_byte = read<uint8_t>(is);
   read<uint16_t>(is); // unused
+  if (!is.good()) throw std::runtime_error("error reading from std::istream");
 
   const bool is_empty = (flags_byte & (1 << flags::IS_EMPTY_1)) | (flags_byte & (1 << flags::IS_EMPTY_2));
 
@@ -314,6 +315,7 @@ frequent_items_sketch<T, W, H, E, A> frequent_items_sketch<T, W, H, E, A>::deser
     read<uint32_t>(is); // unused
     const auto total_weight = read<W>(is);
     const auto offset = read<W>(is);
+    if (!is.good()) throw std::runtime_error("error reading from std::istream");
 
     // batch deserialization with intermediate array of items and weights
     using AllocW = typename std::allocator_traits<A>::template rebind_alloc<W>;
